@@ -7,7 +7,7 @@ struct C20TOp
   uint8_t kind, name, cat;
   uint32_t value;
 };
-enum { C20_MAXT = 8, C20_MAXOPS = 24, C20_NAMES = 204 };
+enum { C20_MAXT = 8, C20_MAXOPS = 24, C20_NAMES = 204, C20_HUGE_NAMES = 3 };  // names 204..206: 40000, 65000 and 100000 characters
 struct C20TPlan
 {
   unsigned chunk;            // chunk-size knob (8192 = shipped)
@@ -21,6 +21,7 @@ struct C20TPlan
   int t0_records;            // thread 0 records too
   int sequential;            // 1: every recording thread is joined before the next starts (thread ids recur)
   int extra_save;            // 1: the log is saved twice in a row at the end, 2: also once before anything is recorded (same file; the last file counts)
+  int huge_names;            // 1: every event carries a name of 40000-100000 characters (few events make megabytes of log text)
   int many_names;            // 1: event names come from a pool of 200 distinct strings (short and long), not from 4
 };
 struct C20IPlan
